@@ -1050,3 +1050,160 @@ func CloseDuringBurst(res *fw.Result, seed int64) error {
 	}
 	return nil
 }
+
+// SkewedSubscription: the client declares a method as returning a channel, the server's method of that name returns
+// a plain value (the two sides were built from different versions of an API).  The response arrives and cannot be
+// read as a channel id: the call must return (with an error), not wait for ever; other calls are unaffected.
+func SkewedSubscription(res *fw.Result, seed int64) error {
+	e, err := scen.NewEnv(seed+733, 0)
+	if err != nil {
+		return err
+	}
+	defer e.Close()
+	ctx, cancel := context.WithCancel(context.Background())
+	defer cancel()
+	var skew struct {
+		Div func(context.Context, float64, float64) (<-chan int, error)
+		Add func(int, int) (int, error)
+	}
+	closer, err := jsonrpc.NewMergeClient(ctx, e.WSURL(), "SH", []interface{}{&skew}, nil, jsonrpc.WithNoReconnect())
+	if err != nil {
+		return err
+	}
+	sig := "response that is not a channel id for a channel-returning call"
+	for _, args := range [][2]float64{{1, 2}, {-4, 2}, {1, 3}} {
+		c := map[string]interface{}{"scenario": "skewed-subscription", "args": args}
+		done := make(chan error, 1)
+		cctx, ccancel := context.WithTimeout(ctx, 10*time.Second)
+		go func() { _, err := skew.Div(cctx, args[0], args[1]); done <- err }()
+		select {
+		case err := <-done:
+			if err == nil {
+				res.Add(fw.Finding{Kind: "monitor", Signature: sig + ": no error", Detail: fmt.Sprintf("Div(%v,%v) = %v is not a channel id, yet the subscribing call returned a channel and no error", args[0], args[1], args[0]/args[1]), Case: c})
+			}
+		case <-time.After(3 * time.Second):
+			res.Add(fw.Finding{Kind: "monitor", Signature: sig + ": call never returns", Detail: fmt.Sprintf("the server answered Div(%v,%v) with %v; the client could not read that as a channel id, dropped the response and the call had not returned after 3s on a healthy connection", args[0], args[1], args[0]/args[1]), Case: c})
+		}
+		ccancel()
+		res.Count("skewed-subscription")
+		res.Eval(true, []interface{}{"skewed-subscription", args[0], args[1]})
+	}
+	if v, err := skew.Add(3, 4); err != nil || v != 7 {
+		res.Add(fw.Finding{Kind: "monitor", Signature: sig + ": later call fails", Detail: fmt.Sprintf("a later call on the same client failed: %v %v", v, err)})
+	}
+	scen.WithTimeout(3*time.Second, closer)
+	return nil
+}
+
+// NotifyCancelledCtx: a notification issued with a context that is already done (or ends while the request is being
+// handed over).  A notification has nothing to cancel at the peer; the call reports what happened to the notification
+// itself: it was sent (and then the server executes it exactly once), or it was not.
+func NotifyCancelledCtx(res *fw.Result, seed int64) error {
+	e, err := scen.NewEnv(seed+741, 0)
+	if err != nil {
+		return err
+	}
+	defer e.Close()
+	ctx, cancel := context.WithCancel(context.Background())
+	defer cancel()
+	var cl struct {
+		NoteCtx func(context.Context, int) error `notify:"true"`
+		Add     func(int, int) (int, error)
+	}
+	closer, err := jsonrpc.NewMergeClient(ctx, e.WSURL(), "SH", []interface{}{&cl}, nil, jsonrpc.WithNoReconnect())
+	if err != nil {
+		return err
+	}
+	base := nextToks(40)
+	failed, ok := 0, 0
+	var firstErr error
+	for i := 0; i < 30; i++ {
+		cctx, ccancel := context.WithCancel(ctx)
+		ccancel()
+		if err := cl.NoteCtx(cctx, base+i); err != nil {
+			failed++
+			if firstErr == nil {
+				firstErr = err
+			}
+		} else {
+			ok++
+		}
+	}
+	// everything sent so far is executed before this call is answered (one connection, frames in order)
+	if v, err := cl.Add(1, 1); err != nil || v != 2 {
+		return fmt.Errorf("notify-cancelled: control call failed: %v %v", v, err)
+	}
+	time.Sleep(50 * time.Millisecond)
+	executed := 0
+	for i := 0; i < 30; i++ {
+		executed += e.H.C.Entered(base + i)
+	}
+	c := map[string]interface{}{"scenario": "notify-cancelled-ctx", "sent": 30, "reported_failed": failed, "executed": executed}
+	if failed > 0 && executed > ok {
+		res.Add(fw.Finding{Kind: "monitor", Signature: "notification with a done context: reported as failed but executed",
+			Detail: fmt.Sprintf("30 notifications issued with a cancelled context: %d calls returned an error (%v) while the server executed %d of them — the error belongs to an xrpc.cancel the library tried to build for a request that has no id", failed, firstErr, executed), Case: c})
+	}
+	res.Count("notify-cancelled-ctx")
+	res.Eval(true, []interface{}{"notify-cancelled-ctx"})
+	scen.WithTimeout(3*time.Second, closer)
+	return nil
+}
+
+// NotifyThenClose: notifications sent on a healthy connection, then the client is closed gracefully.  Every one of
+// them was reported to its caller as sent and reached the server in full before the close frame: each must be
+// executed exactly once.
+func NotifyThenClose(res *fw.Result, seed int64) error {
+	for round := 0; round < 3; round++ {
+		e, err := scen.NewEnv(seed+751+int64(round), 0)
+		if err != nil {
+			return err
+		}
+		ctx, cancel := context.WithCancel(context.Background())
+		cl, closer, err := e.Client(ctx, jsonrpc.WithNoReconnect())
+		if err != nil {
+			cancel()
+			e.Close()
+			return err
+		}
+		n := []int{25, 60, 120}[round]
+		base := nextToks(n + 5)
+		reported := 0
+		for i := 0; i < n; i++ {
+			cl.Note(base + i)
+			reported++
+		}
+		scen.WithTimeout(3*time.Second, closer)
+		executed := 0
+		for w := 0; w < 100; w++ {
+			executed = 0
+			for i := 0; i < n; i++ {
+				if e.H.C.Entered(base+i) > 0 {
+					executed++
+				}
+			}
+			if executed == n {
+				break
+			}
+			time.Sleep(20 * time.Millisecond)
+		}
+		twice := 0
+		for i := 0; i < n; i++ {
+			if e.H.C.Entered(base+i) > 1 {
+				twice++
+			}
+		}
+		c := map[string]interface{}{"scenario": "notify-then-close", "sent": n, "executed": executed}
+		if executed < n {
+			res.Add(fw.Finding{Kind: "monitor", Signature: "notifications sent before a graceful close are not executed",
+				Detail: fmt.Sprintf("%d notifications were sent on a healthy connection and the client was then closed; 2s later the server had executed %d of them — frames received in full and still queued for the executor when the close arrived were discarded", n, executed), Case: c})
+		}
+		if twice > 0 {
+			res.Add(fw.Finding{Kind: "monitor", Signature: "notification executed twice", Detail: fmt.Sprintf("%d of %d notifications ran more than once", twice, n), Case: c})
+		}
+		res.Count("notify-then-close")
+		res.Eval(true, []interface{}{"notify-then-close", n})
+		cancel()
+		e.Close()
+	}
+	return nil
+}
